@@ -570,6 +570,7 @@ pub fn check(scn: &C11Scenario, stats: &mut RunStats) -> Result<Vec<Violation>, 
         .entries
         .iter()
         .filter(|e| !bad_files.contains(&e.path))
+        .filter(|e| !scn.maybe_bad.contains(&e.path))
         .filter(|e| !(matches!(e.body, Body::Text(_) | Body::Hex(_)) && stale.contains(&&e.path)))
         .cloned()
         .collect();
@@ -729,6 +730,7 @@ pub fn check(scn: &C11Scenario, stats: &mut RunStats) -> Result<Vec<Violation>, 
     }
     let mut may_fail: BTreeSet<String> = faulty.clone();
     may_fail.extend(luaurc_may_fail);
+    may_fail.extend(scn.maybe_bad.iter().filter(|m| lay.expected.contains(*m)).cloned());
     if scn.transient {
         for rule in &scn.faults {
             if rule.nth.is_none() {
@@ -872,13 +874,14 @@ pub fn check(scn: &C11Scenario, stats: &mut RunStats) -> Result<Vec<Violation>, 
         }
     }
     // the effective faulty set of this run
-    let effective: BTreeSet<String> = if scn.transient {
+    let mut effective: BTreeSet<String> = if scn.transient {
         let mut e = faulty.clone();
         e.extend(reported.keys().cloned());
         e
     } else {
         faulty.clone()
     };
+    effective.extend(scn.maybe_bad.iter().filter(|m| reported.contains_key(*m)).cloned());
     for (source, texts) in &reported {
         let mirror = lay.mirror.get(source).cloned().unwrap_or_default();
         for text in texts {
@@ -903,7 +906,14 @@ pub fn check(scn: &C11Scenario, stats: &mut RunStats) -> Result<Vec<Violation>, 
     let healthy: Vec<&String> = lay
         .expected
         .iter()
-        .filter(|s| !effective.contains(*s) && !lay.excluded.contains(*s))
+        .filter(|s| !effective.contains(*s) && !lay.excluded.contains(*s) && !scn.maybe_bad.contains(*s))
+        .collect();
+    // destinations of "maybe bad" sources that were not reported: writing them is fine
+    let maybe_mirrors: BTreeSet<String> = scn
+        .maybe_bad
+        .iter()
+        .filter(|m| !reported.contains_key(*m))
+        .filter_map(|m| lay.mirror.get(m).cloned())
         .collect();
     stats.healthy_ratio_num += healthy.len() as u64;
     stats.healthy_ratio_den += lay.expected.len() as u64;
@@ -986,7 +996,7 @@ pub fn check(scn: &C11Scenario, stats: &mut RunStats) -> Result<Vec<Violation>, 
             }
             continue;
         }
-        if healthy_mirrors.contains(path) {
+        if healthy_mirrors.contains(path) || maybe_mirrors.contains(path) {
             continue;
         }
         if faulted_write_mirrors.contains(path) {
@@ -1038,6 +1048,7 @@ pub fn check(scn: &C11Scenario, stats: &mut RunStats) -> Result<Vec<Violation>, 
                     *writes_per_path.entry(rec.path.clone()).or_insert(0) += 1;
                 }
                 let target_ok = healthy_mirrors.contains(&rec.path)
+                    || maybe_mirrors.contains(&rec.path)
                     || (!ok
                         && effective
                             .iter()
@@ -1541,6 +1552,20 @@ pub fn generate(seed: u64) -> C11Scenario {
     for (path, body) in overrides {
         set_entry(&mut entries, &path, body);
     }
+    let mut maybe_bad: Vec<String> = Vec::new();
+    if !project.input_is_file && !minify && rk.chance(1, 10) {
+        // a script starting with `#!`: this darklua version refuses it when tokens are
+        // preserved (retain_lines) and accepts it otherwise; whatever happens to it, the
+        // files around it must be processed as if it were absent
+        let path = gen::join(&gen::normalize(&project.input), "zz-script.lua");
+        if !entries.iter().any(|e| e.path == path) {
+            entries.push(FsEntry {
+                path: path.clone(),
+                body: Body::Text("#!/usr/bin/env lua\n-- a script\nmark(\"shebang\")\nreturn   1\n".to_owned()),
+            });
+            maybe_bad.push(path);
+        }
+    }
     if matches!(backend, Backend::RealFs | Backend::RealLib) && !project.input_is_file && rk.chance(1, 3) {
         // entries whose metadata cannot be read (dangling symbolic links) next to the
         // sources: they are skipped with a warning; no sibling may get lost with them
@@ -1570,6 +1595,7 @@ pub fn generate(seed: u64) -> C11Scenario {
         alt_walk_seed: ro.next_u64(),
         alt_hash_seed: ro.next_u64(),
         keep_bad_in_reference: project.convert,
+        maybe_bad,
     };
     // extra entries that do not depend on the layout first (they define the layout)
     for e in extra.iter().filter(|e| !e.path.starts_with('@')) {
